@@ -6,7 +6,7 @@ import time
 from pathlib import Path
 from typing import Dict, List, Optional
 
-from experimaestro import Config, LightweightTask, Meta, Param, PathGenerator, Task, deprecate, field
+from experimaestro import Annotated, Config, LightweightTask, Meta, Param, PathGenerator, Task, deprecate, field, pathgenerator
 
 
 # --------------------------------------------------------------------------- C16: tiny tasks
@@ -267,4 +267,71 @@ class TgCfg(Config):
 
 class TgOuter(Config):
     inner: Param[TgCfg]
+    k: Param[int] = 0
+
+
+# ---- classes of the recorded finding "validated flag survives a rejected submission" (bounded/findings.py)
+class VfB(Config):
+    x: Meta[int]
+
+
+class VfA(Config):
+    b: Param[VfB]
+
+
+class VfBad(Config):
+    y: Meta[int]
+
+
+class VfT1(Task):
+    a: Param[VfA]
+    bad: Param[VfBad]
+
+    def execute(self):
+        pass
+
+
+class VfT2(Task):
+    a: Param[VfA]
+
+    def execute(self):
+        pass
+
+
+# ---- round-5 additions (bounded/extra.py)
+class EqSub(Config):
+    x: Param[int]
+    out: Annotated[Path, pathgenerator("out.txt")]
+
+
+class EqHolder(Config):
+    k: Param[int]
+    sub: Param[EqSub] = EqSub(x=1)
+
+
+class EqHolderOld(Config):
+    __xpmid__ = "bounded.zoo_ws.eqholder"
+    k: Param[int]
+
+
+class FalsyBag(Config):
+    """a configuration whose runtime object is falsy when its list is empty"""
+    items: Param[List[int]] = []
+
+    def __len__(self):
+        return len(self.items)
+
+    def __post_init__(self):
+        self.inits = getattr(self, "inits", 0) + 1
+
+
+class FalsyLoad(LightweightTask):
+    bag: Param[FalsyBag]
+
+    def execute(self):
+        self.bag.loaded = getattr(self.bag, "loaded", 0) + 1
+
+
+class FalsyHolder(Config):
+    bag: Param[FalsyBag]
     k: Param[int] = 0
